@@ -48,7 +48,7 @@ def splitStr (s sep : String) : List String :=
 
 def parseNatChars : List Char → Option Nat
   | [] => none
-  | cs => if cs.all Char.isDigit then some (cs.foldl (fun acc c => acc * 10 + (c.toNat - 48)) 0) else none
+  | cs => if cs.all Char.isDigit then some (Nat.ofDigitChars 10 cs 0) else none
 
 def parseIntChars : List Char → Option Int
   | '-' :: ds => (parseNatChars ds).map (fun n => - (n : Int))
